@@ -4,6 +4,7 @@ package swagen
 // (GleecePipeline.Run) -> both emitters. See core/visitors/zz_verif_front.go for the loader.
 
 import (
+	"encoding/json"
 	"go/ast"
 	"strconv"
 	"strings"
@@ -1827,4 +1828,93 @@ type Ctl struct {
 	_ = swagen31.GenerateModelsSpec(doc31, &meta.Models)
 	_ = swagen30.GenerateControllersSpec(doc30, cfg, meta.Flat)
 	_ = swagen31.GenerateControllersSpec(doc31, cfg, meta.Flat)
+}
+
+// C07 through the front end, type graphs: mutual recursion, named slices and maps, alias of a struct, embedded
+// generic instantiation - the project is accepted or refused with an error (C14), and when accepted every reference
+// in the components resolves and both documents agree component by component
+func vh_C07_front_graphs_Q() {
+	shapes := []string{
+		"type A struct{ B *B }\ntype B struct{ As []A }",
+		"type A struct{ M map[string]*A }\ntype B struct{ X int }",
+		"type Tags []string\ntype A struct{ T Tags }\ntype B struct{ X int }",
+		"type Dict map[string]int\ntype A struct{ D Dict; P *Dict }\ntype B struct{ X int }",
+		"type AS = B\ntype A struct{ S AS }\ntype B struct{ X int }",
+		"type Box[T any] struct{ Item T }\ntype A struct{ Box[B] }\ntype B struct{ X int }",
+		"type E string\nconst E1 E = \"one\"\ntype EA = E\ntype A struct{ V EA; L []E }\ntype B struct{ X int }",
+		"type A struct{ Inner struct{ N int } }\ntype B struct{ X int }",
+		"type Box[T any] struct{ Item T }\ntype A struct{ X Box[Box[B]] }\ntype B struct{ X int }",
+	}
+	decls := shapes[symxChoice("shape", len(shapes))]
+	use := []string{"A", "[]A", "*A"}[symxChoice("use", 3)]
+	src := `package ctl
+
+import "github.com/gopher-fleece/runtime"
+
+` + decls + `
+
+// @Route(/c)
+type Ctl struct {
+	runtime.GleeceController
+}
+
+// @Method(POST)
+// @Route(/op)
+// @Body(b)
+func (c *Ctl) Op(b B) (` + use + `, error) {
+	panic("unused")
+}
+`
+	fr, err := visitors.VhLoadSource(src, nil)
+	symxAssert(err == nil, "C07.front.fixture-loads")
+	if err != nil {
+		return
+	}
+	meta, err := pipeline.VhNewPipeline(fr, vhFrontConfig()).Run()
+	if err != nil {
+		symxCover("C07.front.graphs.refused")
+		symxRecord("refused", "yes")
+		return
+	}
+	// what the 3.0 generator returns with the real validator in the loop: either an error (the command fails and
+	// writes nothing) or a document in which every reference resolves
+	symxRealLibrary("openapi3.Validate")
+	cfg := &definitions.OpenAPIGeneratorConfig{OpenAPI: "3.0.0", BaseURL: "https://x", Info: definitions.OpenAPIInfo{Title: "t", Version: "1"}}
+	out, err := swagen30.GenerateSpec(cfg, meta.Flat, &meta.Models)
+	if err != nil {
+		symxCover("C07.front.graphs.refused-by-the-validator")
+		return
+	}
+	symxCover("C07.front.graphs.accepted")
+	var doc map[string]any
+	symxAssert(json.Unmarshal(out, &doc) == nil, "C07.front.graphs.document-parses")
+	var refs []string
+	vhCollectRefs(doc, &refs)
+	comps, _ := doc["components"].(map[string]any)
+	schemas, _ := comps["schemas"].(map[string]any)
+	symxRecord("components", strings.Join(vhSortedAnyKeys(schemas), ","))
+	_, hasA := schemas["A"]
+	_, hasB := schemas["B"]
+	symxAssert(hasA && hasB, "C07.front.graphs.reachable-structs-have-components")
+	const pre = "#/components/schemas/"
+	for _, r := range refs {
+		ok := strings.HasPrefix(r, pre)
+		if ok {
+			_, ok = schemas[strings.TrimPrefix(r, pre)]
+		}
+		symxAssert(ok, "C07.front.graphs.every-reference-resolves")
+	}
+	// and the 3.1 components agree with the 3.0 ones
+	doc30, doc31 := vhNewDoc30(), vhNewDoc31()
+	symxAssert(swagen30.GenerateModelsSpec(doc30, &meta.Models) == nil && swagen31.GenerateModelsSpec(doc31, &meta.Models) == nil, "C07.front.graphs.models-no-error")
+	for _, n := range vhSortedAnyKeys(schemas) {
+		p31, ok := doc31.Components.Schemas.Get(n)
+		if n == definitions.Rfc7807ErrorName {
+			continue
+		}
+		symxAssert(ok, "C07.front.graphs.same-components-in-both-documents")
+		if ok {
+			symxAssert(vhSameView(vhView30(doc30.Components.Schemas[n]), vhView31(p31)), "C07.front.graphs.component-agrees-in-both-documents")
+		}
+	}
 }
